@@ -337,9 +337,10 @@ class Sym(Interp):
         t = ("method", r, attr, self.argt(args), self.kwt(kwargs) + (self.draw_tag() if attr in IMPURE_METHODS else ()))
         self.fact("call", ctx, n, env, target="." + attr, recv=r, args=[T(a) for a in args],
                   kwargs={k: T(v) for k, v in kwargs.items()}, callkind="method", result=t, rawargs=list(args))
-        if attr == "shuffle" and args and n.args:
+        if attr == "shuffle" and ((args and n.args) or "x" in kwargs):
             # generator.shuffle(x) permutes its argument in place
-            self.rebind(n.args[0], ("shuffled", T(args[0]), r) + self.draw_tag(), env, ctx)
+            xnode = n.args[0] if n.args else next(k.value for k in n.keywords if k.arg == "x")
+            self.rebind(xnode, ("shuffled", T(args[0] if args else kwargs["x"]), r) + self.draw_tag(), env, ctx)
         elif attr in MUTATORS:
             self.rebind(n.func.value, ("mut", r, attr, self.argt(args)), env, ctx)
         return t
@@ -351,8 +352,15 @@ class Sym(Interp):
         return t
 
     def call_repo(self, func, selfobj, args, kwargs, n, env, ctx):
-        f = self.fact("call", ctx, n, env, target=func.qname, args=[T(a) for a in args],
-                      kwargs={k: T(v) for k, v in kwargs.items()}, callkind="repo", result=None, rawargs=list(args),
+        # the fact lists the arguments in the callee's parameter order, however the caller spelled the call (keywords that
+        # continue the positional prefix are moved into it)
+        pp = func.posparams[1:] if func.is_method else func.posparams
+        cargs, ckw = [T(a) for a in args], {k: T(v) for k, v in kwargs.items()}
+        if not any(isinstance(a, tuple) and a and a[0] == "*" for a in args) and "**" not in ckw:
+            while len(cargs) < len(pp) and pp[len(cargs)] in ckw:
+                cargs.append(ckw.pop(pp[len(cargs)]))
+        f = self.fact("call", ctx, n, env, target=func.qname, args=cargs,
+                      kwargs=ckw, callkind="repo", result=None, rawargs=list(args),
                       selfobj=selfobj)
         if self.inline(func) and func.qname not in ctx.stack:
             r = super().call_repo(func, selfobj, args, kwargs, n, env, ctx)
@@ -366,7 +374,10 @@ class Sym(Interp):
             named.append((p, T(a)))
         for k, v in kwargs.items():
             named.append((k, T(v)))
-        t = ("call", func.qname, tuple(a for _, a in named if True), tuple(sorted(named)))
+        # canonical argument order = the callee's parameter order, however the caller spelled the call
+        rank = {p_: k_ for k_, p_ in enumerate(posparams)}
+        canon = sorted(named, key=lambda kv: (rank.get(kv[0], len(rank)), kv[0])) if len({k_ for k_, _ in named}) == len(named) else named
+        t = ("call", func.qname, tuple(a for _, a in canon), tuple(sorted(named)))
         f.result = t
         f.named = dict(named)
         if func.name == "__init__" and selfobj is not None:
